@@ -111,6 +111,10 @@ End Kick.
 
 (* ------------------------------------------------------------------ for the correspondence: a whole grid as lists *)
 Definition zrange (n : Z) : list Z := map Z.of_nat (seq 0 (Z.to_nat n)).
+(* every index of a grid of shape sh, in storage order *)
+Definition all_idx (sh : idx) : list idx :=
+  let '(nx, ny, nz) := sh in
+  flat_map (fun i => flat_map (fun j => map (fun k => (i, j, k)) (zrange nz)) (zrange ny)) (zrange nx).
 Definition grid_lists (sh : idx) (f : idx -> Q) : list (list (list Q)) :=
   let '(nx, ny, nz) := sh in
   map (fun i => map (fun j => map (fun k => f (i, j, k)) (zrange nz)) (zrange ny)) (zrange nx).
